@@ -7,7 +7,7 @@
 (* clauses and the run goes on; Consumed (POSTCONDITION) demands that      *)
 (* every step of every case was judged.                                    *)
 (***************************************************************************)
-EXTENDS JudgeC01, JudgeHist, JudgeC15, JudgeC20, JudgePass, Json, IOUtils, TLCExt
+EXTENDS JudgeC01, JudgeHist, JudgeC15, JudgeC20, JudgePass, JudgeCnf, Json, IOUtils, TLCExt
 
 (* The case file is deserialised ONCE (in Init, into TLC register 7); TLC would otherwise
    re-read the JSON file at every reference of a zero-arity definition built on IOEnv. *)
@@ -32,13 +32,17 @@ Fails(c, s) ==
     [] c.kind = "ttcode"  -> C01TTCodeFails(c)
     [] c.kind = "hist"    -> HistFails(c, s)
     [] c.kind = "partial" -> C15Fails(c)
+    [] c.kind = "cnf"     -> C05CnfFails(c)
+    [] c.kind = "csat"    -> C05SatFails(c)
+    [] c.kind = "miter"   -> C13Fails(c)
     [] c.kind = "pass"    -> IF c.prop = "C03" THEN C03Fails(c) ELSE C18Fails(c)
     [] c.kind = "trav"    -> C20TravFails(c)
     [] c.kind = "topsort" -> C20TopFails(c)
     [] c.kind = "cycle"   -> C20CycleFails(c)
     [] c.kind = "same"    -> FailSet(<< <<c.what, c.a = c.b /\ c.exc = "">> >>)
 
-Drift(c, s) == IF c.kind = "hist" THEN HistDrift(c, s) ELSE {}
+Drift(c, s) == IF c.kind = "hist" THEN HistDrift(c, s)
+               ELSE IF c.kind = "cnf" THEN C05CnfDrift(c) ELSE {}
 
 (* The cases are cut into NCH contiguous chains; each chain is an independent linear
    behaviour (its own initial state), so that one JVM with several workers judges them in
